@@ -60,6 +60,11 @@ impl Offset {
                 #[cfg(unix)]
                 return {
                     let result = fs::read("/etc/localtime");
+                    #[cfg(astrolabe_verif)]
+                    let result = match crate::verif::localtime_override() {
+                        Some(path) => fs::read(path),
+                        None => result,
+                    };
                     match result {
                         Ok(bytes) => {
                             TimeZone::from_tzif(&bytes)
